@@ -23,7 +23,9 @@ def cases(tier, rng, run):
         c = gen_ctx.gen_ctx(rng, perturb=(1,), tuple_p=0.25, ret_p=0.6)
         # (a third of the calls leave the last 1-2 parameters at their DEFAULT value: a default is an argument like any other)
         omit = rng.choice([0, 0, 0, 0, 1, 2])
-        out.append(Case(c.call_line("func", rng.choice(["pos", "kw", "mixed", "fwd", "kwonly", "posonly"]), omit=omit), "call", {"ctx": c}))
+        kind = "method" if rng.random() < 0.2 else "func"
+        style = rng.choice(["pos", "kw", "mixed", "fwd", "kwonly", "posonly"] + (["kwself", "kwself"] if kind == "method" else []))
+        out.append(Case(c.call_line(kind, style, prov=(("self" if c.scope else "-") if kind == "method" else None), omit=omit, explicit=rng.random() < 0.5), "call", {"ctx": c}))
     return out
 
 
